@@ -69,6 +69,10 @@ def one_case(rng, tier):
             add({'op': 'map', 'f': 'ident'})
     g = aprogs.AGen(rng)
     nodes.append({'id': 'sk', 'op': 'sink', 'ups': [last], 'kind': rng.choice(['sync', 'coro', 'future', 'tornado', 'awaitable']), 'svc': g._svc()})
+    if rng.random() < 0.15:
+        # a consumer that blocks the loop thread for a while (a plain function doing time.sleep / real work)
+        nodes[-1]['kind'] = 'sync_block'
+        nodes[-1]['svc'] = [rng.choice([0, 0, 0.25, 0.75, 1.5, 3.0]) for _ in range(rng.choice([2, 3, 4]))]
     prog = {'nodes': nodes, 'extra_edges': []}
     np_ = rng.choice([1, 1, 2, 3, 4])
     prods = []
